@@ -269,6 +269,39 @@ func Explore(sc *core.Scenario, ex *Extra, tier string, st *core.Stats) ([]Hit, 
 		}
 	}
 
+	// a second store after a library-level removal must describe the knowledge base as it is NOW
+	if want("roundtrip") && len(ex.Removed) == 0 && len(sc.Program.Rules) > 1 {
+		victim := sc.Program.Rules[int(progHash%uint64(len(sc.Program.Rules)))].Name
+		lib.RemoveRuleEntry(victim, esim.KBName, esim.KBVersion)
+		w3 := &Writer{}
+		if err := lib.StoreKnowledgeBaseToWriter(w3, esim.KBName, esim.KBVersion); err != nil {
+			hit("C12.store-after-remove-failed", fmt.Sprintf("store after removing %s failed: %v", victim, err), Extra{Op: "roundtrip"})
+		} else {
+			l4 := ast.NewKnowledgeLibrary()
+			if kb4, err := load(w3.Image, nil, true, l4); err != nil {
+				hit("C12.store-after-remove-failed", fmt.Sprintf("the stream stored after removing %s does not load: %v", victim, err), Extra{Op: "roundtrip"})
+			} else if d := metaDiff(lib.Library[ast.GetKnowledgeBaseKey(esim.KBName, esim.KBVersion)], kb4); d != "" {
+				hit("C12.stale-stream-after-remove", fmt.Sprintf("stored, removed %s at library level, stored again, loaded: the loaded knowledge base is not the current one: %s", victim, d), Extra{Op: "roundtrip"})
+			} else if len(ex.Probes) > 0 {
+				ex2 := *ex
+				ex2.Removed = []string{victim}
+				a, errA := behave(sc, lib, ex.Probes[0], &ex2)
+				b, errB := behave(sc, l4, ex.Probes[0], &ex2)
+				if errA == nil && (errB != nil || !a.same(b)) {
+					hit("C12.stale-stream-after-remove", fmt.Sprintf("stored, removed %s at library level, stored again, loaded: the loaded knowledge base behaves differently from the current one", victim), Extra{Op: "roundtrip"})
+				}
+			}
+			count("store-after-remove", 0)
+		}
+		// the remaining operations work on the knowledge base without that rule
+		ex.Removed = []string{victim}
+		w = &Writer{}
+		if err := lib.StoreKnowledgeBaseToWriter(w, esim.KBName, esim.KBVersion); err == nil {
+			image, bounds, W = w.Image, w.Bounds, w.Calls
+			blueprint = lib.Library[ast.GetKnowledgeBaseKey(esim.KBName, esim.KBVersion)]
+		}
+	}
+
 	// failing writer: every write index
 	if want("wfail") {
 		ks := []int{}
